@@ -34,7 +34,9 @@ Classes == {"empty",      \* no bytes
             "truncated",  \* a proper prefix of a document
             "malformed",  \* not a document
             "unknown",    \* a document of the expected type with an extra, undeclared field
-            "wrongtype"}  \* a well-formed document of another type
+            "wrongtype",  \* a well-formed document of another type
+            "otherenc"}   \* the expected value, well-formed, but written in the OTHER registered encoding (JSON under a Smile
+                          \* Content-Type and vice versa): Content-Type names the encoding, the body is not sniffed
 
 (* Content-Type classes, relative to the registered encodings *)
 CtClasses == {"exact",      \* the registered media type, verbatim
